@@ -30,6 +30,7 @@ import DfolsVerif.Proofs.TrsLinear
 import DfolsVerif.Kernels.TrStepRule
 import DfolsVerif.Proofs.TrsConvexBall
 import Mathlib.Analysis.Real.Sqrt
+import DfolsVerif.Gen.TrProj
 
 namespace Dfols
 namespace C13
@@ -240,6 +241,16 @@ example : chooseStep (Val.num (-3)) "d" "0" = "0" ∧ chooseStep (Val.num 5) "d"
   KKT with multiplier `1/(2U)` for the ball and Cauchy–Schwarz give optimality.
   Watched by the search of `./check C13` against the clipped-ray bisection oracle on every input.
 -/
+
+/-- **layer G**: in the three convex-constrained solvers the list handed to Dykstra is a fresh copy of the user's projectors
+    with the trust-region ball `pball(·, centre, Delta)` appended LAST — so a returned point lies exactly in the ball
+    (`C15_last_in`), which is what `convex_step_in_ball` / `ctrsbox_geometry_in_ball` rest on, and the caller's list is never
+    modified.  Statements as generated from trust_region.py on every run. -/
+theorem gen_trproj_last : Gen.trprojPlacement =
+    [("ctrsbox_sfista", ["trproj = lambda w: pball(w, xopt, delta)", "P = list(projections)", "P.append(trproj)"]),
+     ("ctrsbox_pgd", ["trproj = lambda w: pball(w, xopt, delta)", "P = list(projections)", "P.append(trproj)"]),
+     ("ctrsbox_linear", ["trproj = lambda w: pball(w, xbase, Delta)", "P = list(projections)", "P.append(trproj)"])] := by
+  decide +kernel
 
 end C13
 end Dfols
